@@ -378,7 +378,7 @@ def run(ctx):
     ctx.cov["rule"] = ("(1) correspondence of CurrentUsedQuoteColumn, the six Current<Clause>ClauseUsedQuoteColumn and CurrentColumnSelectToDirectQuoteHash between the Lean model and the "
                        "real classes on the first statement of general generated scripts (all statement kinds, Hive clauses, rejected texts) and on the dedicated queries; "
                        "(2) oracle on the implementation: a dedicated generator writes single-level and nested queries with known column placement per clause — bare / quoted / "
-                       "qualified columns, arithmetic, functions, CASE, CAST, window functions, aggregates with and without column arguments, COUNT(*), `*`, `t.*`, upper- and "
+                       "qualified columns, arithmetic, functions, CASE, CAST, window functions whose OVER clause partitions / orders by columns and by integer literals (in the select list, HAVING and ORDER BY), integer literals as function arguments / CASE arms / IN lists, items that look like positions but are expressions (1 + 1, '1', +1), position 1 naming a literal / window / sub-query item, sub-queries with their own ORDER BY 1, aggregates with and without column arguments, COUNT(*), `*`, `t.*`, upper- and "
                        "lower-case dialect variables, scalar / IN / EXISTS sub-queries and derived tables in every clause, USING / ON joins, aliases and ordinals in GROUP BY / HAVING / "
                        "ORDER BY, alias/column name clashes, WITH tables, UNION branches — and the expected answer of each of the seven analyzers is computed from the description of "
                        "the query alone; an answer that differs is explained by a listed defect class only if it equals the answer predicted for exactly that class. "
